@@ -228,6 +228,24 @@ def ts(t):
         for f in t["fs"][1:]:
             acc = f'NumberFormatExtends<{acc}, "{f}">'
         return acc
+    if k == "app":
+        return t["n"] + "<" + ", ".join(ts(a) for a in t["args"]) + ">"
+    if k == "deco":
+        d = t["d"]
+        if d == "parens":
+            return "(" + ts(t["a"]) + ")"
+        if d == "comment":
+            return "/* a comment */ " + ts(t["a"]) + " // trailing\n"
+        if d == "jsdoc":
+            return ts(t["a"])      # the doc comment itself is printed by _members in front of the key
+        if d == "readonly":
+            a = t["a"]
+            if a["t"] == "arr":
+                return f"ReadonlyArray<{ts(a['e'])}>"
+            if a["t"] == "tuple":
+                return "readonly " + ts(a)
+            return f"Readonly<{ts(a)}>"
+        raise ToolError(f"unknown decoration {d}")
     if k == "util":      # utility application: Partial<T>, Pick<T, K>, ...
         return t["u"] + "<" + ", ".join(ts(a) for a in t["args"]) + ">"
     if k == "keyof":
@@ -255,7 +273,8 @@ def _key(s):
 def _members(t):
     ms = []
     for p in t["ps"]:
-        ms.append(f"{_key(p['key'])}{'?' if p['opt'] else ''}: {ts(p['ty'])};")
+        doc = "/** documented */ " if p["ty"]["t"] == "deco" and p["ty"]["d"] == "jsdoc" else ""
+        ms.append(f"{doc}{_key(p['key'])}{'?' if p['opt'] else ''}: {ts(p['ty'])};")
     for ix in t["ix"]:
         ms.append(f"[key: {ts(ix['kt'])}]: {ts(ix['vt'])};")
     return ms
